@@ -1,0 +1,50 @@
+//go:build verif
+
+package tbtc
+
+import (
+	"context"
+	"crypto/ecdsa"
+	"math/big"
+
+	"github.com/keep-network/keep-core/pkg/bitcoin"
+	"github.com/keep-network/keep-core/pkg/tecdsa"
+)
+
+// Verification hooks for property C27: a thin exported wrapper around the
+// unexported walletTransactionExecutor.signTransaction. No behaviour of
+// its own.
+
+// verifSigningExecutor adapts a plain function to walletSigningExecutor.
+type verifSigningExecutor struct {
+	signBatchFn func(messages []*big.Int) ([]*tecdsa.Signature, error)
+}
+
+func (vse *verifSigningExecutor) signBatch(
+	ctx context.Context,
+	messages []*big.Int,
+	startBlock uint64,
+) ([]*tecdsa.Signature, error) {
+	return vse.signBatchFn(messages)
+}
+
+// VerifSignTransaction wraps walletTransactionExecutor.signTransaction using
+// the given function as the signing executor.
+func VerifSignTransaction(
+	btcChain bitcoin.Chain,
+	walletPublicKey *ecdsa.PublicKey,
+	signBatchFn func(messages []*big.Int) ([]*tecdsa.Signature, error),
+	unsignedTx *bitcoin.TransactionBuilder,
+) (*bitcoin.Transaction, error) {
+	wte := newWalletTransactionExecutor(
+		btcChain,
+		wallet{publicKey: walletPublicKey},
+		&verifSigningExecutor{signBatchFn},
+		func(ctx context.Context, block uint64) error {
+			<-ctx.Done()
+			return nil
+		},
+	)
+
+	return wte.signTransaction(logger, unsignedTx, 0, 0)
+}
